@@ -130,3 +130,24 @@ Theorem C08_stall_example :
     s_end sb1 = false /\ s_sent sb1 = [RSync; RUpd kf_path 1 1 0; RUpd kf_path 4 5 2; RUpd st_path2 1 3 0].
 Proof. exact stall_example. Qed.
 Print Assumptions C08_stall_example.
+
+(** A subscription that ends (client gone, send timed out) and is removed from
+    the match trie path by path leaves every OTHER subscriber's registrations,
+    and what every later announcement delivers to them, exactly as they were
+    -- sibling, deeper or shallower paths alike. *)
+Theorem C08_others_registered_unaffected :
+  forall h st lb s st', sub_label lb = Some s -> step h st lb = Some st' ->
+  forall s' sb', s' <> s -> nth_error (st_subs st') s' = Some sb' ->
+    nth_error (st_subs st) s' = Some sb' /\
+    (forall pat, mult sb' pat = match nth_error (st_subs st) s' with Some sb0 => mult sb0 pat | None => O end) /\
+    (forall it, deliver st' it sb' = deliver st it sb').
+Proof. exact others_registered_unaffected. Qed.
+Print Assumptions C08_others_registered_unaffected.
+
+(** The paths of an ended subscription leave the trie one at a time. *)
+Theorem C08_unreg_shrinks :
+  forall h st s st' sb, nth_error (st_subs st) s = Some sb -> step h st (LUnreg s) = Some st' ->
+  exists sb', nth_error (st_subs st') s = Some sb' /\ s_end sb' = true /\
+              (forall q, In q (regq sb') -> In q (regq sb)).
+Proof. exact unreg_shrinks. Qed.
+Print Assumptions C08_unreg_shrinks.
